@@ -219,15 +219,16 @@ func c10Scenarios(tier string) []Scenario {
 					Calls: []CallSpec{{ID: 0, Match: ms[0], CancelAt: -1, After: -1}, {ID: 1, Match: ms[1], CancelAt: -1, After: -1}}, Dgs: d}, "library-matchers")
 			}
 		}
-		// (4d') DHCPv4: the hardware address the client answers for comes from WithHWAddr, not from the constructor
-		if !v6 {
+		// (4d') DHCPv4: the hardware address the client answers for comes from WithHWAddr, not from the constructor;
+		// DHCPv6: the connection comes from WithConn
+		{
 			for _, seq := range dgSequences(alpha, 2) {
 				d := append([]DgSpec{}, seq...)
 				for i := range d {
 					d[i].At = 1
 				}
-				add(&ClientScenario{V6: false, HWOpt: true, T: T, Tries: 1, BufCap: 1, CloseAt: -1, Bound: 1,
-					Calls: []CallSpec{{ID: 0, Match: MatchGood, CancelAt: -1, After: -1}}, Dgs: d}, "configured-hwaddr")
+				add(&ClientScenario{V6: v6, HWOpt: true, T: T, Tries: 1, BufCap: 1, CloseAt: -1, Bound: 1,
+					Calls: []CallSpec{{ID: 0, Match: MatchGood, CancelAt: -1, After: -1}}, Dgs: d}, "configured-by-option")
 			}
 		}
 		// (4e) the production stack: the DHCPv4 client on top of the raw broadcast connection (frames in, frames out);
